@@ -133,6 +133,7 @@ impl BatchStats {
             ("gc_blocks_released", s.frees_seen),
             ("trace_faults_fired", s.faults_fired),
             ("callback_panics", s.callback_panics),
+            ("destructor_panics_fired", s.drop_faults),
             ("ctor_failures", s.ctor_failures),
             ("arena_drops", s.arena_drops),
             ("marked_arenas", s.marked_arenas),
